@@ -90,7 +90,7 @@ theorem fault_returns_last_valid_iterate (m : Method) (n : Nat) (env : Nat → E
   have hs := code_is_sound m
   obtain ⟨_, _, _, h4, _, _⟩ := sound_fields hs
   have := runFrom_fault hs hr hf n 0 (init (Gen.codeOf m)) (by simp [init]) (Nat.zero_le j) (by omega)
-    (by simp [init]) (by simp [init, h4]) (by simp [init])
+    (by simp [init]) (by simp [init, h4]) (by simp [init]) (by simp [init])
   exact ⟨this.1, this.2.1, this.2.2.1⟩
 
 /-- the order of the statements matters for the obligation `code_is_sound`: a body that evaluates the distance BEFORE its
@@ -106,10 +106,36 @@ theorem order_and_copy_matter :
     (run { repairedNewton with saveIsCopy := false } 2 (envOf [.ok 0 false, .fail 0 4])).solTag = 2 := by decide
 
 /-- the program point of the fault is irrelevant for the running code: raising at statement `a` of body `b` or at
-statement `a'` of body `b'` leaves the same state (the as-found code below distinguishes them) -/
-theorem fault_point_irrelevant (m : Method) (s : LoopState) (i b a b' a' : Nat) :
+statement `a'` of body `b'` leaves the same state (for every state in which the saved distance is fresh, as it is in every
+reachable running state: `Good.saved`) (the as-found code below distinguishes them) -/
+theorem fault_point_irrelevant (m : Method) (s : LoopState)
+    (hsv : (Gen.codeOf m).saveDistBeforeTry = false → s.savedDist = s.distTag) (i b a b' a' : Nat) :
     step (Gen.codeOf m) s i (.fail b a) = step (Gen.codeOf m) s i (.fail b' a') := by
-  rw [step_fail (code_is_sound m), step_fail (code_is_sound m)]
+  rw [step_fail (code_is_sound m) s hsv, step_fail (code_is_sound m) s hsv]
+
+/-- what the handler restores the distance from must be kept fresh by the code itself: re-bound at the top of every pass
+(Newton) or committed by the last statement of every body (Bregman's `old_distance = new_distance`). A Bregman-shaped
+code whose bodies lack that commit is not sound, and the model then predicts the defect: after a fault in pass 2 the
+last valid iterate 2 is returned with the distance of iterate 0 -/
+theorem commit_matters :
+    let c : LoopCode := { bodies := [[⟨.linearSolve, .none⟩, ⟨.setSolution, .writeSol⟩, ⟨.distance, .writeDist⟩,
+                                       ⟨.criteria, .criteria⟩]],
+                          restoreSol := true, restoreDist := true, flagOnBreak := true, distInit := true, iterInit := true,
+                          saveIsCopy := true, saveDistBeforeTry := false, post := .guarded }
+    c.sound = false ∧
+      (run c 5 (envOf [.ok 0 false, .ok 0 false, .fail 0 0])).solTag = 2 ∧
+      (run c 5 (envOf [.ok 0 false, .ok 0 false, .fail 0 0])).distTag = some 0 := by decide
+
+/-- the post-loop block: a failure of Bregman's (guarded) pressure post-processing leaves distance, iterate, status as
+they are and only replaces the pressure by the NaN marker; Newton has nothing after the loop that can fail -/
+theorem post_loop_failure_only_marks_pressure (s : LoopState) (postFails : Bool) :
+    finish (Gen.codeOf .bregman) s postFails
+        = .ok { state := s, pressure := if postFails then none else some s.solTag } ∧
+      finish (Gen.codeOf .newton) s postFails = .ok { state := s, pressure := some s.solTag } := by
+  refine ⟨finish_guarded (by decide) s postFails, ?_⟩
+  have : (Gen.codeOf .newton).post = .none := by decide
+  unfold finish
+  rw [this]
 
 /-- a NaN distance (Bregman's early return) is never reported as converged -/
 theorem nan_not_converged (m : Method) (n : Nat) (env : Nat → Event) (j : Nat)
@@ -240,6 +266,17 @@ theorem anderson_run_preserves_balance (n : Nat) (a : Nat → Rat) (φ : Rat) (d
     ∀ k, Anderson.row n a
       (Anderson.call depth restart lstsq (Anderson.runSt depth restart lstsq gs fs k) (gs k) (fs k) k).1 = φ :=
   Anderson.run_preserves n a φ depth restart lstsq gs fs hg
+
+/-- the same for the accelerator with its column filter (difference columns of `F` that vanish relative to the current
+increment are left out of the least-squares problem, their weights are 0): the filtered mixing is `call` with a wrapped
+least-squares routine, so it is still an affine combination and keeps every linear constraint of the images -/
+theorem anderson_filtered_run_preserves_balance (n : Nat) (a : Nat → Rat) (φ : Rat) (dim depth : Nat) (restart : Option Nat)
+    (lstsq : List Anderson.V → Anderson.V → List Rat) (gs fs : Nat → Anderson.V)
+    (hg : ∀ k, Anderson.row n a (gs k) = φ) :
+    ∀ k, Anderson.row n a
+      (Anderson.callFiltered dim depth restart lstsq
+        (Anderson.runSt depth restart (Anderson.filteredLstsq dim lstsq) gs fs k) (gs k) (fs k) k).1 = φ :=
+  Anderson.run_preserves n a φ depth restart (Anderson.filteredLstsq dim lstsq) gs fs hg
 
 /-- every Bregman iterate's flux is the flux block of a solution of a full system with mass source `f`,
 whatever the weights and the flux right-hand side: balanced -/
